@@ -35,6 +35,11 @@ def program(row, n="{N}"):
         inner = [f"want_{d}{n}(r{n}(a, n, u))"]
     elif pos.startswith("arg-"):
         inner = [f"want_{d}{n}({e})"]
+    elif pos.startswith("compound-elem-"):
+        inner = [f"mut ms: list[{T[d]}] = [{INIT[d][0]}]", f"ms[0] {row.get('cop', '+')}= {e}", f"want_{d}{n}(ms[0])"]
+    elif pos.startswith("compound-field-"):
+        decls += f"\nclass Cell{n}:\n    m: {T[d]}\n"
+        inner = [f"mut c = Cell{n}(m={INIT[d][0]})", f"c.m {row.get('cop', '+')}= {e}", f"want_{d}{n}(c.m)"]
     elif pos.startswith("compound-"):
         inner = [f"mut m: {T[d]} = {INIT[d][0]}", f"m {row.get('cop', '+')}= {e}", f"want_{d}{n}(m)"]
     else:  # const
@@ -106,6 +111,13 @@ def run(ctx):
             # `x ** (2)`: the documentation does not say whether a parenthesised literal is "a literal";
             # the spec does not decide it - only agreement of the consumers (accepted => builds) is demanded
             if real_ok and not r["pos"].startswith("arg-"):
+                accepted.append(r)
+            continue
+        if r["pos"].startswith("compound-") and r["ty"] not in ("int", "float"):
+            # `m <op>= <bool expression>`: an operand that is neither int nor float is outside C07's quantifier
+            # ("over int and float operands"); what the checker says about it is not judged here
+            ctx.stats["compound_non_numeric_operand_not_judged"] = ctx.stats.get("compound_non_numeric_operand_not_judged", 0) + 1
+            if real_ok and r["accept"]:
                 accepted.append(r)
             continue
         if real_ok != r["accept"]:
